@@ -112,6 +112,7 @@ fn c01_one(ctx: &mut Ctx, c: &DayCase) {
 }
 
 pub fn c01(ctx: &mut Ctx, tier: &str, r: &mut Rng, js: &[Value], reqs: &[String], replay_only: bool) {
+    ctx.shrinker = Some(c01_one);
     for c in cases_from(js, reqs) {
         if (gmt(&c) - lon(&c) / 15.).abs() <= 6. {
             c01_one(ctx, &c.with(|p| p.round_seconds = RoundSeconds::None));
@@ -315,6 +316,7 @@ fn c03_one(ctx: &mut Ctx, c: &DayCase) {
 }
 
 pub fn c03(ctx: &mut Ctx, tier: &str, r: &mut Rng, js: &[Value], reqs: &[String], replay_only: bool) {
+    ctx.shrinker = Some(c03_one);
     for c in cases_from(js, reqs) {
         if lat(&c).abs() <= 60. && c.p.intervals[&Prayer::Fajr] == 0. && c.p.intervals[&Prayer::Isha] == 0. && c.p.intervals[&Prayer::Imsaak] == 0. {
             let c2 = c.with(|p| {
@@ -396,6 +398,7 @@ fn c04_one(ctx: &mut Ctx, c: &DayCase) {
 }
 
 pub fn c04(ctx: &mut Ctx, tier: &str, r: &mut Rng, js: &[Value], reqs: &[String], replay_only: bool) {
+    ctx.shrinker = Some(c04_one);
     for c in cases_from(js, reqs) {
         if lat(&c).abs() <= 60. {
             c04_one(ctx, &plain(Method::Isna, c.l, c.rd));
@@ -476,6 +479,7 @@ fn c05_one(ctx: &mut Ctx, c: &DayCase) {
 }
 
 pub fn c05(ctx: &mut Ctx, tier: &str, r: &mut Rng, js: &[Value], reqs: &[String], replay_only: bool) {
+    ctx.shrinker = Some(c05_one);
     for c in cases_from(js, reqs) {
         if lat(&c).abs() <= 60. && PRAYERS.iter().all(|q| c.p.minutes[q] == 0.) {
             c05_one(ctx, &c);
@@ -557,6 +561,7 @@ fn c06_one(ctx: &mut Ctx, c: &DayCase) {
 }
 
 pub fn c06(ctx: &mut Ctx, tier: &str, r: &mut Rng, js: &[Value], reqs: &[String], replay_only: bool) {
+    ctx.shrinker = Some(c06_one);
     for c in cases_from(js, reqs) {
         if lat(&c).abs() <= 89.5 && c.p.intervals[&Prayer::Fajr] == 0. && c.p.intervals[&Prayer::Isha] == 0. {
             c06_one(ctx, &c.with(|p| p.extreme_latitude_method = ExtremeLatitudeMethod::None));
@@ -627,6 +632,7 @@ fn c13_one(ctx: &mut Ctx, c: &DayCase) {
 }
 
 pub fn c13(ctx: &mut Ctx, tier: &str, r: &mut Rng, js: &[Value], reqs: &[String], replay_only: bool) {
+    ctx.shrinker = Some(c13_one);
     for c in cases_from(js, reqs) {
         if lat(&c).abs() <= 45. && (gmt(&c) - lon(&c) / 15.).abs() <= 4. && c.rd > rd_of(1600, 1, 1) && c.rd < rd_of(2399, 12, 31) {
             c13_one(ctx, &plain(Method::Mwl, c.l, c.rd));
